@@ -180,10 +180,24 @@ class Sim:
             mode = ("all", "reactant", "product")[(self.step + j) % 3]
             c = self.cfg(n)
             name = c["spell"][key]
+            alts = c["alt"].get(key, [])
+            if alts and (self.step + j) % 2:
+                name = alts[(self.step + j) % len(alts)]  # an equivalent spelling of the same species
             got = net.where_species(name, mode)
             exp = mod.where(key, mode)
             if got != exp:
                 raise Violation("where-species-mismatch", f"net {n}: where_species({name!r}, {mode!r}) = {got}, model {exp}")
+        # where_reaction / membership for one held reaction per step (documented equality)
+        if mod.order:
+            k = self.step % len(mod.order)
+            target = net.reaction_list[k]
+            tc = mod.entry(mod.order[k])["content"]
+            exp = [i for i, e in enumerate(mod.held()) if M.documented_equal(e["content"], tc)]
+            got = net.where_reaction(target)
+            if got != exp:
+                raise Violation("where-reaction-mismatch", f"net {n}: where_reaction(held #{k}) = {got}, model {exp}")
+            if target not in net:
+                raise Violation("where-reaction-mismatch", f"net {n}: held reaction #{k} is reported as not in the network")
 
     def check_all(self, touched=None, relaxed=False):
         for n in sorted(self.nets):
@@ -261,9 +275,38 @@ class Sim:
                 kw["allowed_species"] = self._names(n, spec["allowed"])
             if spec["required"]:
                 kw["required_species"] = self._names(n, spec["required"])
-            self.nets[n] = N.Network(**kw)
             self.models[n] = M.ModelNetwork(spec["allowed"], spec["required"])
             self.bound[n], self.inst[n], self.how[n] = {}, {}, {}
+            mod = self.models[n]
+            init = op.get("init")
+            if init and init["how"] == "reactions":
+                # Network(reactions=[...]): the constructor adds them one by one
+                objs = []
+                for u in init["uids"]:
+                    ar = self.pools[n][u]
+                    r = self.make_reaction(n, ar)
+                    self.alive.append(r)
+                    self.inst[n][u] = r
+                    self.how[n][u] = ("inst", False)
+                    self.bound[n][id(r)] = u
+                    objs.append(r)
+                    mod.add(u, W.expected_content(ar, "naunet"))
+                kw["reactions"] = objs
+            elif init and init["how"] == "files":
+                paths, fmts = [], []
+                for uids, fmt in init["files"]:
+                    self.nfile += 1
+                    path = os.path.join(self.rundir, f"net{n}_init{self.nfile}.{fmt}")
+                    with open(path, "w") as f:
+                        f.write("".join(W.encode(self.cfgname(n), self.pools[n][u], fmt, u) + "\n" for u in uids))
+                    paths.append(path)
+                    fmts.append(fmt)
+                    for u in uids:
+                        self.how[n][u] = ("str", fmt)
+                        mod.add(u, W.expected_content(self.pools[n][u], fmt))
+                kw["filelist"] = paths if len(paths) > 1 or init.get("aslist") else paths[0]
+                kw["fileformats"] = fmts if init.get("fmtlist") or len(set(fmts)) > 1 else fmts[0]
+            self.nets[n] = N.Network(**kw)
             return "ok", False
         if n is not None and n not in self.nets:
             return "skipped-no-net", False
@@ -493,6 +536,24 @@ def gen_op(rng, world, sim, n):
             return {"op": kind, "elements": rng.choice(FOREIGN_LISTS), "name": rng.choice(["HE", "Co", "X2Y", "SIO", "h2o"])}
         return {"op": kind, "elements": rng.choice(FOREIGN_LISTS)}
     if n not in sim.nets:
+        spec = world["nets"][n]
+        r = rng.random()
+        if r < 0.25:
+            k = rng.randint(1, min(8, len(spec["pool"])))
+            return {"op": "new", "net": n, "init": {"how": "reactions", "uids": [ar["uid"] for ar in rng.sample(spec["pool"], k)]}}
+        if r < 0.45:
+            files, used = [], set()
+            for _ in range(rng.randint(1, 2)):
+                fmt = rng.choice(["naunet", "kida", "umist", "krome"])
+                ok = [ar for ar in spec["pool"] if ar["uid"] not in used and fmt in W.formats_for(spec["cfg"], ar)]
+                if not ok:
+                    continue
+                chosen = rng.sample(ok, min(len(ok), rng.randint(1, 6)))
+                used.update(ar["uid"] for ar in chosen)
+                files.append([[ar["uid"] for ar in chosen], fmt])
+            if files:
+                return {"op": "new", "net": n, "init": {"how": "files", "files": files, "aslist": rng.random() < 0.5,
+                                                       "fmtlist": rng.random() < 0.5}}
         return {"op": "new", "net": n}
     spec = world["nets"][n]
     mod = sim.models[n]
@@ -673,6 +734,11 @@ def minimise(world, ops, clause, rundir):
             ref.add(o["uid"])
         if "uids" in o:
             ref.update(o["uids"])
+        init = o.get("init")
+        if init:
+            ref.update(init.get("uids", []))
+            for uids, _fmt in init.get("files", []):
+                ref.update(uids)
     w2 = dict(world, nets=[dict(nn, pool=[ar for ar in nn["pool"] if ar["uid"] in ref]) for nn in world["nets"]])
     if still_world(w2, ops, clause, rundir):
         world = w2
